@@ -1,13 +1,16 @@
 import Driver.Breaker
 import Driver.Limiter
+import Failsafe.Conc.Linearize
 /-!
 Line protocol of the `linz` slice: concurrent histories of one shared breaker / rate limiter are checked for
 **linearizability against the sequential model** (the very definitions the C03 / C05 theorems are about): there must be an
 order of the operations of each round that respects real time (an operation that returned before another was called comes
 first) and in which the model returns every observed result. The set of model states reachable by such orders is carried
-from round to round; a sequential probe narrows it.
+from round to round; a sequential probe narrows it. The search is `Failsafe.Conc.Linearize.linearize`, proved sound and
+complete for the declarative definition (`not_linearizable_iff`): an empty answer means no valid order exists.
 -/
 namespace Driver.Linz
+open Failsafe.Conc.Linearize (HOp linearize)
 
 inductive M
   | brk (s : Driver.Breaker.St)
@@ -20,13 +23,6 @@ structure St where
   rounds : Nat := 0
   opsChecked : Nat := 0
   maxCands : Nat := 0
-
-structure HOp where
-  thread : Nat
-  call : Nat
-  ret : Nat
-  op : String
-  res : String
 
 def key : M → String
   | .brk s => toString (repr s.b) ++ "@" ++ toString s.now
@@ -58,19 +54,6 @@ def applyOp (m : M) (op : String) : M × String :=
       (.lim s', out.getD "")
     | _ => (m, "bad-op")
   | .none => (m, "bad-op")
-
-/-- all model states reachable by a real-time-respecting order of `ops` in which every result matches -/
-def linearize : Nat → M → List HOp → List M
-  | 0, _, _ => []
-  | _, m, [] => [m]
-  | fuel + 1, m, ops =>
-    ops.foldl (fun acc o =>
-      -- `o` may come next iff no remaining operation returned before `o` was called
-      if ops.any (fun p => p.ret < o.call) then acc
-      else
-        let (m', res) := applyOp m o.op
-        if res == o.res then acc ++ linearize fuel m' (ops.filter (fun p => !(p.thread == o.thread && p.call == o.call)))
-        else acc) []
 
 def parseHOp (s : String) : Option HOp :=
   match s.splitOn ":" with
@@ -112,7 +95,7 @@ def check (st : St) (toks : List String) (obs : Option String) : St × Option St
     | none => (st, none)
     | some o =>
       let ops := (o.trim.splitOn " ").filterMap parseHOp
-      let next := dedupe (st.cands.flatMap (fun m => linearize (ops.length + 1) m ops))
+      let next := dedupe (st.cands.flatMap (fun m => linearize applyOp (ops.length + 1) m ops))
       let st := { st with rounds := st.rounds + 1, opsChecked := st.opsChecked + ops.length,
                           nontrivial := st.nontrivial + (if ops.length > 2 then 1 else 0), maxCands := max st.maxCands next.length }
       if next.isEmpty then (st, some "not-linearizable: no real-time-respecting order of this round reproduces the observed results on the sequential model")
